@@ -209,6 +209,45 @@ def _run(V, work, tier):
         want = [mnode(y) for y in model[x["orig"]]["trees"]]
         if not r["strict"]["ok"] or [rnode(y) for y in r["strict"]["trees"]] != want:
             V.add(None, "layout changes the tree: %s reads differently from %s" % (json.dumps(x["text"]), json.dumps(x["orig"])), x)
+    # ---- separator INSERTION: a blank put between two adjacent tokens that the specification's lexer tells apart and that
+    # are complete expressions or brackets (not after a quote mark or dispatch prefix, not after a minus sign that merges
+    # with what follows) does not change the tree
+    ins = []
+    for t in acc:
+        m = model[t]
+        if '"' in t or ";" in t or "#" in t or "ttx" not in m:
+            continue
+        pos, i, okp = [], 0, True
+        for ty, tx in zip(m["toks"], m["ttx"]):
+            if ty == "EOF":
+                break
+            sx = "".join(tx)
+            while i < len(t) and t[i] in " \n":
+                i += 1
+            if not sx or not t.startswith(sx, i):
+                okp = False
+                break
+            pos.append((i, i + len(sx), ty))
+            i += len(sx)
+        if not okp:
+            continue
+        for a, b in zip(pos, pos[1:]):
+            if a[1] != b[0] or a[2] in ("QUOTE", "FUN_REF", "UNBOUND", "HASH_BANG") or (a[2] == "NEGATIVE" and b[2] in ("INT", "FLOAT", "SYMBOL")):
+                continue
+            ins.append({"id": len(ins), "text": t[:a[1]] + " " + t[a[1]:], "orig": t, "left": a[2], "right": b[2]})
+    if len(ins) > (20000 if thorough else 5000):
+        ins = rnd.sample(ins, 20000 if thorough else 5000)
+        for k, x in enumerate(ins):
+            x["id"] = k
+    ir = {r["id"]: r for r in driver_json(binary, ["reader"], [{"id": x["id"], "text": x["text"]} for x in ins], timeout=3300)}
+    for x in ins:
+        r = ir[x["id"]]
+        want = [mnode(y) for y in model[x["orig"]]["trees"]]
+        if not r["strict"]["ok"] or [rnode(y) for y in r["strict"]["trees"]] != want:
+            import re as _re
+            V.add("dash-run-layout" if _re.search(r"--[^ \n)\]]", x["orig"]) else None,
+                  "a blank inserted between two complete expressions changes the tree: %s reads differently from %s" % (json.dumps(x["text"]), json.dumps(x["orig"])), x)
+    V.coverage["separator_insertions"] = len(ins)
     # ---- separators LONGER than the scanner's window (128 KiB): a comment, a run of blanks, a run of line breaks between two
     # complete tokens, at the window size and around it; whatever stands behind the long separator is still code or still
     # comment, never the other
